@@ -109,6 +109,19 @@ pub fn oracle(c: &Case) -> Verdict {
                     let want_rest: Vec<usize> = got_ids.iter().skip(k + 1).copied().collect();
                     vassert_eq!(rest, want_rest, "nth_then_next", "{ctx}: iteration after nth({k})");
                 }
+                // nth on a partially consumed iterator, and repeated nth
+                for j in 1..=got_ids.len().min(3) {
+                    for k in 0..=(got_ids.len() - j).min(3) {
+                        let mut it = loc.replicas_for_token(t, &ds, None, &table).into_iter();
+                        for _ in 0..j {
+                            it.next();
+                        }
+                        let nth = it.nth(k).map(|(n, _)| node_index(n));
+                        vassert_eq!(nth, got_ids.get(j + k).copied(), "nth_after_next", "{ctx}: {j} x next() then nth({k})");
+                        let nth2 = it.nth(1).map(|(n, _)| node_index(n));
+                        vassert_eq!(nth2, got_ids.get(j + k + 2).copied(), "nth_twice", "{ctx}: {j} x next(), nth({k}), nth(1)");
+                    }
+                }
                 {
                     let mut it = loc.replicas_for_token(t, &ds, None, &table).into_iter();
                     let mut remaining = got_ids.len();
